@@ -151,7 +151,8 @@ fn parse_byte_list_numbers(input: &str) -> Result<Vec<u8>, DataError> {
     let mut numbers = vec![];
 
     for c in input.chars().chain(iter::once(' ')) {
-        if c.is_numeric() || c == '_' {
+        // digits above 9 are letters in the `0R_digits` radix forms
+        if c.is_alphanumeric() || c == '_' {
             current_number.push(c);
         } else if c == ' ' && current_number.len() > 0 {
             match parse_simple_number(current_number.as_str())? {
